@@ -254,10 +254,57 @@ def judge_multicolumn_numeric(sd, m):
             m.violation(contract, f"{text}: {type(e).__name__}: {e}", case=case, key="multicolumn:raises")
 
 
+def judge_pass_missing_categorical(sd, m):
+    """na_action='pass' with a missing CATEGORICAL value (None in a str / object column, NaN in a category column, a
+    missing grouping value). The pinned tree refuses such a frame (noted, nothing to judge). A design that is returned
+    must keep every row, and a column labelled f[l] / 1|g[u] must not be 1 on a row whose f / g is missing: that row
+    does not equal the level."""
+    import formulae
+    import pandas as pd
+
+    rng = np.random.default_rng(sd)
+    n = 9 + int(rng.integers(0, 6))
+    base = pd.DataFrame({"y": rng.normal(size=n), "x": rng.normal(size=n),
+                         "f": [["a", "b", "c"][j % 3] for j in rng.permutation(n)], "g": [["u", "v", "w"][j % 3] for j in rng.permutation(n)]})
+    r = int(rng.integers(0, n))
+    frames_ = []
+    for col in ("f", "g"):
+        o = base.copy(); o[col] = o[col].astype(object); o.loc[r, col] = None
+        frames_.append((col, "object/None", o))
+        c = o.copy(); c[col] = pd.Categorical(c[col])
+        frames_.append((col, "category/NaN", c))
+    for col, kind, df in frames_:
+        for text in (("y ~ x + f", "y ~ 0 + f + x", "y ~ x + f:x") if col == "f" else ("y ~ x + (1|g)", "y ~ x + (x|g)", "y ~ x + g")):
+            case = {"text": text, "seed": sd, "pass_missing": True, "kind": kind}
+            m.current_case = case
+            m.case(case, canon=[text, sd, kind], nontrivial=True)
+            contract = "group-labels-match-columns" if "|" in text else "common-labels-match-columns"
+            try:
+                with core.shadow():
+                    dm = attach.ORIG["design_matrices"](text, df, "pass", 0, None)
+            except Exception as e:
+                m.ev(contract, applicable=False)
+                m.note("pass-missing-categorical-refused:" + type(e).__name__)
+                continue
+            m.ev(contract)
+            part = dm.group if "|" in text else dm.common
+            X = np.asarray(part.design_matrix, dtype=float)
+            labels = [lab for t in part.terms.values() for lab in t.labels]
+            if X.shape[0] != n or len(labels) != X.shape[1]:
+                m.violation(contract, f"{text} ({kind}, pass): {X.shape} for {n} rows and {len(labels)} labels", case=case, key="pass-missing:shape")
+                continue
+            for j, lab in enumerate(labels):
+                if (col + "[") in lab and ":" not in lab and X[r, j] == 1:
+                    m.violation(contract, f"{text} ({kind}, na_action='pass'): row {r} has no value of {col} but column {lab!r} is 1 there",
+                                case=case, key="pass-missing:coded-as-level")
+                    break
+
+
 def run_shard(i, n, tier, seed, m):
     for rep in range(4 if tier == "quick" else 40):
         if rep % n == i:
             core.guarded(judge_multicolumn_numeric)(seed * 31 + rep, m)
+            core.guarded(judge_pass_missing_categorical)(seed * 37 + rep, m)
     rng = random.Random(seed * 1000003 + i * 101 + 4)
     ncases = (4000 if tier == "quick" else 60000) // n
     prev_case = None
@@ -290,4 +337,6 @@ def replay(rec, m):
     register_hooks(m)
     if rec["case"].get("multicolumn"):
         return judge_multicolumn_numeric(rec["case"]["seed"], m)
+    if rec["case"].get("pass_missing"):
+        return judge_pass_missing_categorical(rec["case"]["seed"], m)
     judge(rec["case"], m)
